@@ -14,6 +14,7 @@ import (
 	"time"
 
 	"github.com/emersion/go-webdav/vsim/model"
+	"github.com/emersion/go-webdav/vsim/rt"
 	"github.com/emersion/go-webdav/vsim/simos"
 )
 
@@ -32,6 +33,7 @@ type Log struct {
 }
 
 func (l *Log) Addf(format string, a ...interface{}) {
+	rt.Tick()
 	s := fmt.Sprintf(format, a...)
 	if l.sb != "" {
 		// the sandbox path depends on the process id: keep it (and fragments of
@@ -145,6 +147,7 @@ func within(dir, p string) bool {
 }
 
 func (d *DiskSeam) Before(c *simos.Call) *simos.Inject {
+	rt.Tick()
 	if d.Yield != nil {
 		d.Yield(c)
 	}
